@@ -603,6 +603,9 @@ class Engine:
                 elif isinstance(v, SDict) and name in E.entry_sdicts:
                     self.saved.append((v, 'sdict', None, v.items))
                     v.items = {k: [p, x] for k, (p, x) in E.entry_sdicts[name].items()}
+                elif isinstance(v, Obj) and name in getattr(E, 'entry_objs', {}):
+                    self.saved.append((v, 'obj', None, v.attrs))          # old(self.x): the attribute as it was at entry
+                    v.attrs = dict(E.entry_objs[name])
             self.heap = E.st.heap
             E.st.heap = dict(E.st.entry_heap)
 
@@ -611,6 +614,8 @@ class Engine:
             for v, kind, n, payload in self.saved:
                 if kind == 'frame':
                     v.n, v.cols = n, payload
+                elif kind == 'obj':
+                    v.attrs = payload
                 else:
                     v.items = payload
             E.st.heap = self.heap
@@ -737,6 +742,7 @@ class Engine:
         self.entry_env = dict(env)
         self.entry_sdicts = {k: _sdict_snapshot(v) for k, v in env.items() if isinstance(v, SDict)}
         self.entry_frames = {k: _frame_snapshot(v) for k, v in env.items() if isinstance(v, Frame)}
+        self.entry_objs = {k: dict(v.attrs) for k, v in env.items() if isinstance(v, Obj)}
         for m in list(contract.get('modifies', [])) + list(case.get('modifies', [])):
             if '.' in m:                       # 'self.thresholds': an object held in an attribute
                 base, attr = m.split('.', 1)
